@@ -24,6 +24,7 @@ type refCPU struct {
 	ime                    bool
 	halted, stopped        bool
 	haltbug                bool
+	eiCnt                  uint8 // boundaries left until a pending EI takes effect (2 right after EI)
 	undefined              bool
 	cycles                 int
 	fetches                int // instruction bytes fetched (opcode, CB opcode, operands)
@@ -294,6 +295,17 @@ func (r *refCPU) daa() {
 }
 
 // step executes one instruction whose first byte is at pc. The opcode (and CB opcode) are read from memory.
+// boundary applies what happens at an instruction boundary before the dispatch decision:
+// an EI executed two boundaries ago takes effect
+func (r *refCPU) boundary() {
+	if r.eiCnt > 0 {
+		r.eiCnt--
+		if r.eiCnt == 0 {
+			r.ime = true
+		}
+	}
+}
+
 func (r *refCPU) step() {
 	op := r.fetch()
 	if r.haltbug {
@@ -495,6 +507,7 @@ func (r *refCPU) step() {
 				case 1:
 					r.pc = r.pop16(2)
 					r.ime = true
+					r.eiCnt = 0
 					r.cycles = 4
 				case 2:
 					r.pc = r.hl()
@@ -538,9 +551,13 @@ func (r *refCPU) step() {
 				r.stepCB()
 			case 6:
 				r.ime = false
+				r.eiCnt = 0
 				r.cycles = 1
 			case 7:
-				r.ime = true
+				// EI: effective only after the following instruction
+				if r.eiCnt == 0 && !r.ime {
+					r.eiCnt = 2
+				}
 				r.cycles = 1
 			default:
 				r.undefined = true
